@@ -125,10 +125,22 @@ class RZILTransformer(Transformer):
         return self.il_ops_holder.get_op_count()
 
     def add_op(self, op):
+        # Variables, registers, the return value and hybrid temporaries have already a unique name.
+        has_unique_name = (
+            isinstance(op, Variable)
+            or isinstance(op, Register)
+            or isinstance(op, ReturnValue)
+            or (isinstance(op, LocalVar) and op.value_type.group & VTGroup.HYBRID_LVAR)
+        )
         if op.get_name() in self.parameters:
             raise ValueError(f"Operand {op.get_name()} already defined as parameter.")
         elif self.il_ops_holder.has_op(op.get_name()):
-            return self.il_ops_holder.get_op_by_name(op.get_name())
+            known_op = self.il_ops_holder.get_op_by_name(op.get_name())
+            if has_unique_name or known_op is op:
+                return known_op
+            # Otherwise the op only shares its name with a variable of the
+            # behavior (e.g. a local named `cond`, `branch` or `seq`).
+            # It gets its id appended below and is a different op.
 
         num_id = self.il_ops_holder.get_op_count()
         op.set_num_id(num_id)
@@ -137,15 +149,7 @@ class RZILTransformer(Transformer):
                 NotImplementedError(f"{op} can not be inlined yet.")
             op.inlined = True
 
-        if (
-            not isinstance(op, Variable)
-            and not isinstance(op, Register)
-            and not isinstance(op, ReturnValue)
-            and not (
-                isinstance(op, LocalVar) and op.value_type.group & VTGroup.HYBRID_LVAR
-            )
-        ):
-            # Those have already a unique name
+        if not has_unique_name:
             op.set_name(f"{op.get_name()}_{num_id}")
         self.il_ops_holder.add_op(op)
         return op
